@@ -14,6 +14,7 @@ import (
 )
 
 type Obligation struct {
+	LongBudget bool // clause marked slow: solved with the long budget
 	Name   string
 	Base   string
 	Kind   string
